@@ -91,15 +91,21 @@ def ref_permute2(T, M, p):
     return T.stack([T.stack([M[p[i], p[j]] for j in range(n)]) for i in range(n)])
 
 
-def weights(M):
-    """the weighted distances |M_ij| * |i - j| off the diagonal."""
+def weights(M, symmetric=True):
+    """the weighted distances |M_ij| * |i - j| off the diagonal (for a symmetric matrix the
+    upper triangle: the harness builds those from one symbol per pair)."""
     n = M.shape[0]
-    return [abs(scalar(M[i, j])) * abs(i - j) for i in range(n) for j in range(n) if i != j]
+    return [
+        abs(scalar(M[i, j])) * abs(i - j)
+        for i in range(n)
+        for j in range(n)
+        if (i < j if symmetric else i != j)
+    ]
 
 
-def is_bandwidth(env, b, M):
+def is_bandwidth(env, b, M, symmetric=True):
     """b = max_ij |M_ij| |i-j|  as a predicate (upper bound that is attained)."""
-    w = weights(M)
+    w = weights(M, symmetric)
     if not w:
         return env.eqv(b, 0.0)
     return b_and(*[env.le(x, b) for x in w], b_or(*[env.eqv(b, x) for x in w]))
@@ -198,7 +204,7 @@ def bandwidth_def(n):
             w = [abs(scalar(A[i, j])) for i in range(n) for j in range(n) if i != j]
             env.check(b_and(*[env.le(x, b) for x in w], b_or(*[env.eqv(b, x) for x in w])), f"matrix_bandwidth = max |M_ij| |i-j| (n={n})")
         else:
-            env.check(is_bandwidth(env, b, A), f"matrix_bandwidth = max |M_ij| |i-j| (n={n})")
+            env.check(is_bandwidth(env, b, A, symmetric=False), f"matrix_bandwidth = max |M_ij| |i-j| (n={n})")
         # is_symmetric: allclose(M, M^T, atol=1e-8) with torch's default rtol=1e-5
         res = om.is_symmetric(A)
         close = b_and(
@@ -228,8 +234,9 @@ def bandwidth_def(n):
 # ---------------------------------------------------------------------------
 # one global step: min over the candidate set
 # ---------------------------------------------------------------------------
-def global_step(n, n_thr):
+def global_step(n, n_thr, first_idx=None):
     perms = all_perms(n)
+    first = [perms[i] for i in first_idx] if first_idx is not None else perms
 
     def fn(env):
         T = env.torch
@@ -239,7 +246,7 @@ def global_step(n, n_thr):
         cands = []
 
         def rcm(mat, threshold):
-            p = env.choice(f"candidate{len(cands)}", perms)
+            p = env.choice(f"candidate{len(cands)}", perms if cands else first)
             cands.append(p)
             return T.tensor(p)
 
@@ -264,7 +271,7 @@ def global_step(n, n_thr):
 # ---------------------------------------------------------------------------
 # minimize_bandwidth_impl: accumulate while strictly improving
 # ---------------------------------------------------------------------------
-def impl_loop(n, n_thr, inits, max_accepted=None):
+def impl_loop(n, n_thr, inits, max_accepted=None, terminate="assume"):
     perms = all_perms(n)
     init_perms = [perms[i] for i in inits] if inits is not None else perms
 
@@ -280,9 +287,15 @@ def impl_loop(n, n_thr, inits, max_accepted=None):
 
         def rcm(mat, threshold):
             k = len(seen)
+            cut = max_accepted is not None and k >= max_accepted * n_thr
+            if cut and terminate == "identity":
+                # recorded cut: after `max_accepted` improving steps the candidate is the
+                # identity (never a strict improvement), which ends the loop
+                seen.append((mat.clone(), list(range(n))))
+                return T.arange(n)
             p = env.choice(f"candidate{k}", perms)
             seen.append((mat.clone(), p))
-            if max_accepted is not None and k >= max_accepted * n_thr:
+            if cut:
                 # recorded cut: at most `max_accepted` improving steps are followed
                 env.assume(
                     env.le(om.matrix_bandwidth(mat), om.matrix_bandwidth(ref_permute2(T, mat, p))),
@@ -333,7 +346,7 @@ def check_minimize(env, om, M, M0, res, n):
         env.check(bw_le(env, Mr, M), f"bandwidth of the reordered matrix <= bandwidth of the original order (n={n})")
 
 
-def minimize_e2e(n, n_thr, samples, rand_idx=None, max_accepted=None):
+def minimize_e2e(n, n_thr, samples, rand_idx=None, max_accepted=None, terminate="assume"):
     perms = all_perms(n)
     rand_perms = [perms[i] for i in rand_idx] if rand_idx is not None else perms
 
@@ -346,10 +359,14 @@ def minimize_e2e(n, n_thr, samples, rand_idx=None, max_accepted=None):
         steps = {"run": 0, "k": 0}
 
         def rcm(mat, threshold):
+            steps["k"] += 1
+            cut = max_accepted is not None and steps["k"] > max_accepted * n_thr
+            if cut and terminate == "identity":
+                calls.append(list(range(n)))
+                return T.arange(n)
             p = env.choice(f"candidate{len(calls)}", perms)
             calls.append(p)
-            steps["k"] += 1
-            if max_accepted is not None and steps["k"] > max_accepted * n_thr:
+            if cut:
                 env.assume(
                     env.le(om.matrix_bandwidth(mat), om.matrix_bandwidth(ref_permute2(T, mat, p))),
                     f"at most {max_accepted} accepted improvement steps per restart",
@@ -375,11 +392,14 @@ def minimize_e2e(n, n_thr, samples, rand_idx=None, max_accepted=None):
     return fn
 
 
-def minimize_contract(n, samples):
+def minimize_contract(n, samples, free_restart=False, first_idx=None):
     """minimize_bandwidth over a restart loop that is only known by its contract
     (decided in the impl_* cases): it returns some permutation p together with the
-    bandwidth of |M| under p, and from the identity it never returns a worse one."""
+    bandwidth of |M| under p, never worse than the permutation it started from.
+    `free_restart`: restarts from a random permutation may return *any* permutation
+    (a superset of the contract; the random permutation itself is then immaterial)."""
     perms = all_perms(n)
+    first = [perms[i] for i in first_idx] if first_idx is not None else perms
 
     def fn(env):
         T = env.torch
@@ -390,17 +410,21 @@ def minimize_contract(n, samples):
         runs = []
 
         def randperm(L):
+            if free_restart:
+                return T.tensor(list(range(n))[::-1])
             return T.tensor(env.choice(f"randperm{len(runs)}", perms))
 
         def impl(matrix, initial_perm):
-            p = env.choice(f"restart{len(runs)}", perms)
-            runs.append((initial_perm.tolist(), p))
+            start = [int(x) for x in initial_perm.tolist()]
+            p = env.choice(f"restart{len(runs)}", first if not runs else perms)
+            runs.append((start, p))
             pt = T.tensor(p)
             bw = om.matrix_bandwidth(pm.permute_tensor(matrix, pt))
-            env.assume(
-                env.le(bw, om.matrix_bandwidth(pm.permute_tensor(matrix, initial_perm))),
-                "contract of minimize_bandwidth_impl (decided in impl_*): result no worse than its initial permutation",
-            )
+            if not free_restart or start == list(range(n)):
+                env.assume(
+                    env.le(bw, om.matrix_bandwidth(pm.permute_tensor(matrix, initial_perm))),
+                    "contract of minimize_bandwidth_impl (decided in impl_*): result no worse than its initial permutation",
+                )
             return pt, bw
 
         def rcm(mat, threshold):
@@ -458,72 +482,99 @@ META = {
 }
 
 
+def over_sizes(ns, make):
+    """one case for several small sizes: the size is the explorer's first choice."""
+    fns = {n: make(n) for n in ns}
+
+    def fn(env):
+        n = env.choice("n", list(ns))
+        fns[n](env)
+
+    return fn
+
+
 def cases(tier):
     quick = tier == "quick"
     out = []
-    # helpers
-    for n in ([1, 2, 3, 4] if quick else [1, 2, 3, 4, 5]):
-        out.append(
-            Case(
-                name=f"helpers_n{n}",
-                fn=helpers(n, True),
-                covers=COVERS_P,
-                bounds={"n": n, "permutations": "all n!"},
-                canaries=["inverse_direction"] if n >= 3 else [],
-                weight=n,
-            )
+    # -- permutation helpers --------------------------------------------------
+    ns = [1, 2, 3, 4] if quick else [1, 2, 3, 4, 5]
+    out.append(
+        Case(
+            name=f"helpers_n1to{ns[-1]}",
+            fn=over_sizes(ns, lambda n: helpers(n, True)),
+            covers=COVERS_P,
+            bounds={"n": ns, "permutations": "all n!"},
+            canaries=["inverse_direction"],
+            weight=5,
         )
-    for n in ([30] if quick else [8, 30]):
-        out.append(
-            Case(
-                name=f"helpers_n{n}_fixed_perms",
-                fn=helpers(n, False),
-                covers=COVERS_P,
-                bounds={"n": n, "permutations": "rotation, reversal, transposition, one fixed shuffle"},
-                canaries=["inverse_direction"],
-                weight=n / 4,
-            )
+    )
+    ns = [30] if quick else [8, 30]
+    out.append(
+        Case(
+            name="helpers_large_fixed_perms",
+            fn=over_sizes(ns, lambda n: helpers(n, False)),
+            covers=COVERS_P,
+            bounds={"n": ns, "permutations": "rotation, reversal, transposition, one fixed shuffle"},
+            canaries=["inverse_direction"],
+            weight=8,
         )
-    for n in ([1, 3] if quick else [1, 2, 3, 4]):
-        out.append(
-            Case(
-                name=f"bandwidth_n{n}",
-                fn=bandwidth_def(n),
-                covers=COVERS_O,
-                bounds={"n": n, "matrix": "arbitrary real, not necessarily symmetric"},
-                canaries=(["unweighted"] if n >= 3 else []) + (["always_symmetric"] if n >= 2 else []),
-                weight=n * n,
-                timeout_ms=60000,
-            )
+    )
+    # -- bandwidth / symmetry ---------------------------------------------------
+    ns = [1, 2, 3] if quick else [1, 2, 3, 4]
+    out.append(
+        Case(
+            name=f"bandwidth_n1to{ns[-1]}",
+            fn=over_sizes(ns, bandwidth_def),
+            covers=COVERS_O,
+            bounds={"n": ns, "matrix": "arbitrary real, not necessarily symmetric"},
+            canaries=["unweighted", "always_symmetric"],
+            weight=9,
+            timeout_ms=60000,
         )
-    for n in ([2, 3] if quick else [1, 2, 3, 4]):
-        out.append(
-            Case(
-                name=f"global_n{n}",
-                fn=global_step(n, 2),
-                covers=COVERS_O,
-                bounds={"n": n, "candidates": "2 arbitrary permutations (threshold scan cut from 90 to 2)"},
-                canaries=["picks_worst"] if n >= 3 else [],
-                weight=(2 if n < 4 else 60) * n,
-                timeout_ms=60000,
-                deadline_s=800.0,
-            )
+    )
+    # -- one global step ----------------------------------------------------------
+    out.append(
+        Case(
+            name="global_n1to3",
+            fn=over_sizes([1, 2, 3], lambda n: global_step(n, 2)),
+            covers=COVERS_O,
+            bounds={"n": [1, 2, 3], "candidates": "2 arbitrary permutations (threshold scan cut from 90 to 2)"},
+            canaries=["picks_worst"],
+            weight=10,
+            timeout_ms=60000,
+            deadline_s=800.0,
         )
-    # restart loop
-    for n in (1, 2):
-        out.append(
-            Case(
-                name=f"impl_n{n}",
-                fn=impl_loop(n, 2, None),
-                covers=COVERS_O,
-                bounds={"n": n, "initial_perm": "any", "candidates_per_step": 2, "steps": "unbounded"},
-                canaries=[],
-                weight=n,
+    )
+    if not quick:
+        for k in range(4):
+            g = list(range(6 * k, 6 * k + 6))
+            out.append(
+                Case(
+                    name=f"global_n4_first{g[0]:02d}to{g[-1]:02d}",
+                    fn=global_step(4, 2, g),
+                    covers=COVERS_O,
+                    bounds={
+                        "n": 4,
+                        "candidates": f"2 permutations: #{g[0]}..{g[-1]} of 24 (all over the cases) and an arbitrary one (scan cut from 90 to 2)",
+                    },
+                    canaries=["picks_worst"] if k == 0 else [],
+                    weight=150,
+                    timeout_ms=60000,
+                    deadline_s=800.0,
+                )
             )
+    # -- restart loop ---------------------------------------------------------------
+    out.append(
+        Case(
+            name="impl_n1to2",
+            fn=over_sizes([1, 2], lambda n: impl_loop(n, 2, None)),
+            covers=COVERS_O,
+            bounds={"n": [1, 2], "initial_perm": "any", "candidates_per_step": 2, "steps": "unbounded"},
+            canaries=["must_improve"],
+            weight=2,
         )
-    nperm3 = 6
-    groups3 = [[0, 1, 2], [3, 4, 5]] if quick else [[i] for i in range(nperm3)]
-    for g in groups3:
+    )
+    for g in ([0, 1], [2, 3], [4, 5]):
         out.append(
             Case(
                 name=f"impl_n3_init{''.join(map(str, g))}",
@@ -542,36 +593,36 @@ def cases(tier):
             )
         )
     if not quick:
-        for i in range(24):
+        for k in range(6):
+            g = list(range(4 * k, 4 * k + 4))
             out.append(
                 Case(
-                    name=f"impl_n4_init{i:02d}",
-                    fn=impl_loop(4, 1, [i], max_accepted=1),
+                    name=f"impl_n4_init{g[0]:02d}to{g[-1]:02d}",
+                    fn=impl_loop(4, 1, g, max_accepted=1, terminate="identity"),
                     covers=COVERS_O,
                     bounds={
                         "n": 4,
-                        "initial_perm": f"permutation #{i} of 24 (all 24 over the cases)",
+                        "initial_perm": f"permutations #{g[0]}..{g[-1]} of 24 (all 24 over the cases)",
                         "candidates_per_step": "1 arbitrary permutation",
-                        "steps": "at most 1 accepted improvement",
+                        "steps": "1 arbitrary candidate (accepted or rejected), then the identity as the terminating candidate",
                     },
-                    canaries=["composed_backwards"] if i in (9, 16) else [],
+                    canaries=["composed_backwards"],
                     weight=100,
                     timeout_ms=60000,
                     deadline_s=850.0,
                 )
             )
-    # minimize_bandwidth
-    for n in (1, 2):
-        out.append(
-            Case(
-                name=f"minimize_n{n}",
-                fn=minimize_e2e(n, 2, 1),
-                covers=COVERS_O,
-                bounds={"n": n, "thresholds": 2, "random_restarts": 1, "steps": "unbounded"},
-                canaries=["must_improve"],
-                weight=n,
-            )
+    # -- minimize_bandwidth -----------------------------------------------------------
+    out.append(
+        Case(
+            name="minimize_n1to2",
+            fn=over_sizes([1, 2], lambda n: minimize_e2e(n, 2, 1)),
+            covers=COVERS_O,
+            bounds={"n": [1, 2], "thresholds": 2, "random_restarts": 1, "steps": "unbounded"},
+            canaries=["must_improve"],
+            weight=3,
         )
+    )
     out.append(
         Case(
             name="minimize_n3_identity_start",
@@ -585,35 +636,61 @@ def cases(tier):
         )
     )
     if not quick:
-        for i in range(6):
+        for g in ([0, 1, 2], [3, 4, 5]):
             out.append(
                 Case(
-                    name=f"minimize_n3_restart{i}",
-                    fn=minimize_e2e(3, 1, 1, rand_idx=[i], max_accepted=1),
+                    name=f"minimize_n3_restart{''.join(map(str, g))}",
+                    fn=minimize_e2e(3, 1, 1, rand_idx=g, max_accepted=1, terminate="identity"),
                     covers=COVERS_O,
                     bounds={
                         "n": 3,
                         "thresholds": 1,
-                        "random_restarts": f"1, random permutation #{i} of 6 (all 6 over the cases)",
-                        "steps": "at most 1 accepted improvement per restart",
+                        "random_restarts": f"1, random permutation #{g} of 6 (all 6 over the cases)",
+                        "steps": "per restart 1 arbitrary candidate (accepted or rejected), then the identity as the terminating candidate",
                     },
-                    canaries=[],
+                    canaries=["must_improve"],
                     weight=90,
                     timeout_ms=60000,
                     deadline_s=850.0,
                 )
             )
-    for n in ([3] if quick else [3, 4]):
+    for g in ([0, 1, 2], [3, 4, 5]):
         out.append(
             Case(
-                name=f"minimize_contract_n{n}",
-                fn=minimize_contract(n, 1),
+                name=f"minimize_contract_n3_first{''.join(map(str, g))}",
+                fn=minimize_contract(3, 1, first_idx=g),
                 covers=COVERS_O,
-                bounds={"n": n, "random_restarts": 1, "restart_loop": "replaced by its contract: any permutation no worse than its start"},
+                bounds={
+                    "n": 3,
+                    "random_restarts": 1,
+                    "restart_loop": f"replaced by its contract: any permutation no worse than its start (from the identity: #{g} of 6, all over the cases)",
+                },
                 canaries=["must_improve"],
-                weight=20 if n == 3 else 200,
+                weight=35,
                 timeout_ms=60000,
                 deadline_s=850.0,
             )
         )
+    if not quick:
+        for k in range(4):
+            g = list(range(6 * k, 6 * k + 6))
+            out.append(
+                Case(
+                    name=f"minimize_contract_n4_first{g[0]:02d}to{g[-1]:02d}",
+                    fn=minimize_contract(4, 1, free_restart=True, first_idx=g),
+                    covers=COVERS_O,
+                    bounds={
+                        "n": 4,
+                        "random_restarts": 1,
+                        "restart_loop": (
+                            "replaced by its contract: from the identity any permutation no worse "
+                            f"(#{g[0]}..{g[-1]} of 24; all over the cases), from the random start any permutation at all"
+                        ),
+                    },
+                    canaries=["must_improve"] if k == 0 else [],
+                    weight=200,
+                    timeout_ms=60000,
+                    deadline_s=850.0,
+                )
+            )
     return out
